@@ -5,7 +5,7 @@ import ast
 
 from .. import sym
 from ..sym import Rat, C
-from ..values import Num, Const, Tup, Term, Obj, P, Val, veq, walk_vals, arr_param, term_as_num
+from ..values import Num, Const, Tup, Term, Obj, P, Val, Ref, veq, walk_vals, arr_param, term_as_num, p_not
 from ..model import AnalysisError
 from ..symeval import Evaluator
 from ..weaver_model import WeaverModel, rename_refs
@@ -36,7 +36,12 @@ def check_repeat(ctx):
     sp = ModSpec(ctx.prog, 'traffic_weaver.process', {'x': x, 'y': y, 'repeats': r})
     tx, ty = sp.val('np.tile(x, repeats)'), sp.val('np.tile(y, repeats)')
     rets = [e for e in ev.events if e.kind == 'return' and e.func is fi]
-    ctx.check(len(rets) == 1 and not rets[0].guard, 'C12.2', 'repeat has a single unconditional return (no alternative construction for special inputs)',
+    raise_guards = [g for e in ev.events if e.kind == 'raise' for g in e.guard]
+
+    def validation_only(guard) -> bool:
+        """the return is reached exactly when no argument check raised"""
+        return all(any(veq(g, p_not(rg)) for rg in raise_guards) for g in guard)
+    ctx.check(len(rets) == 1 and validation_only(rets[0].guard), 'C12.2', 'repeat has a single unconditional return (no alternative construction for special inputs)',
               f"{len(rets)} returns; guards {[[str(g)[:80] for g in e.guard] for e in rets]}", fi.loc(), fi.qualname, 'single-return')
     ok = isinstance(res, Tup) and len(res.items) == 2
     ctx.check(ok, 'C12.1', 'repeat returns a pair', show(res, 200), fi.loc(), fi.qualname, 'pair')
@@ -81,15 +86,38 @@ def check_repeat(ctx):
         if isinstance(base, Term) and base.kind in ('ndarray', 'list'):
             base = term_as_num(base, True, base.kind)
         if isinstance(val, Num) and isinstance(base, Num) and ok_idx:
-            cur = Num(sym.subst(base.r, {sym.idx_atom(): sym.idx() + L * i}), L)
-            inc = val.r - cur.r
+            # frame of the loop (each iteration writes only its own copy [n*i, n*(i+1)), i >= 1 increasing): at iteration i the
+            # slots of copy i and of copy 0 still hold the tiled values x[j]
+            bref = _ref_of(base)
+
+            def frame(rt: Rat) -> Rat:
+                mapping = {}
+                for a in sym.all_atoms(rt):
+                    if sym.ATOMS.head(a) != 'el':
+                        continue
+                    rf, ix = sym.ATOMS.args(a)
+                    if bref is None or not veq(rf, bref) or not isinstance(ix, Rat):
+                        continue
+                    if ix - L * i == sym.idx():
+                        mapping[a] = x.r
+                    elif ix == C(0):
+                        mapping[a] = x.at(C(0)).r
+                return sym.subst(rt, mapping) if mapping else rt
+            inc = frame(val.r) - x.r
             B = lambda k: base.at(k).r
-            want = (B(L * i - C(1)) - B(C(0))) + (B(L * i - C(1)) - B(L * i - C(2)))
-            okv = inc == want and bool(e.data.get('aug') or True)
+            want = frame((B(L * i - C(1)) - B(C(0))) + (B(L * i - C(1)) - B(L * i - C(2))))
+            okv = inc == want
             detail = f"offset added: {sym.show(inc)[:300]}\nexpected:     {sym.show(want)[:300]}"
         ctx.check(okv, 'C12.2', inst + ': copy i is shifted by (end of previous copy - start) + last step, read from the array being built', detail,
                   e.loc(), fi.qualname, 'offset')
     ctx.sample({'rule': 'C12.2', 'store': show(stores[0].data['index'], 100) if stores else None})
+
+
+def _ref_of(n: Num):
+    for a in n.r.atoms():
+        if sym.ATOMS.head(a) == 'el':
+            return sym.ATOMS.args(a)[0]
+    return None
 
 
 def check_weaver(ctx, wm: WeaverModel):
